@@ -197,7 +197,7 @@ Definition step_tail (f : decompressor) (e : ierr) : decompressor * option rres 
   | EFuel => (f, Some RStuck)
   | _ =>
     if isError e || (ierr_eqb e EEndInput && eof f) then
-      match step_discard f with
+      match step_discard_at (held_nonneg f) f with
       | None => (f, Some RStuck)
       | Some (Some be, f) => (f, Some (rres_of_berror be))
       | Some (None, f) =>
